@@ -12,6 +12,7 @@
 (*   <<"vpow", a, b>>     a^b with a term exponent (integer valued)        *)
 (*   <<"sum", x, lo, hi, body>>   Sum_{x = lo}^{hi} body  (lo, hi terms)   *)
 (*   <<"fn", f, a>>       application of a function bound by the harness   *)
+(*   <<"e10", e>>         the power of ten 10^e, e an integer              *)
 (*                                                                         *)
 (* The definitions are written ONCE, here in TLA+.  TLC does the case      *)
 (* analysis (which branch applies at which grid point / for which flag),   *)
@@ -39,6 +40,7 @@ TPow(a, n) == <<"pow", a, n>>
 TVPow(a, b) == <<"vpow", a, b>>
 TSum(x, lo, hi, body) == <<"sum", x, lo, hi, body>>
 TFn(f, a)  == <<"fn", f, a>>
+TE10(e)    == <<"e10", e>>
 
 \* the result of a partial evaluation: a normalised rational, or Undef (denominator 0)
 Undef    == <<0, 0>>
@@ -97,6 +99,8 @@ REval(t, env) ==
                        IN  IF ~IsDef(lo) \/ ~IsDef(hi) \/ lo[2] # 1 \/ hi[2] # 1 THEN Undef
                            ELSE RSumRange(t[2], lo[1], hi[1], t[5], env)
       [] op = "fn" -> Undef
+      [] op = "e10" -> IF t[2] >= 0 /\ t[2] <= 9 THEN RPow(<<10, 1>>, t[2])
+                       ELSE IF t[2] < 0 /\ t[2] >= -9 THEN RDiv(ROne, RPow(<<10, 1>>, -t[2])) ELSE Undef
       [] op = "exp" -> LET a == REval(t[2], env)
                        IN  IF ~IsDef(a) THEN Undef
                            ELSE IF a[1] = 0 THEN ROne
@@ -121,6 +125,7 @@ RECURSIVE Diff(_, _)
 Diff(t, x) ==
     LET op == t[1] IN
     CASE op = "q" -> TI(0)
+      [] op = "e10" -> TI(0)
       [] op = "v" -> IF t[2] = x THEN TI(1) ELSE TI(0)
       [] op = "add" -> TAdd(Diff(t[2], x), Diff(t[3], x))
       [] op = "sub" -> TSub(Diff(t[2], x), Diff(t[3], x))
@@ -139,6 +144,7 @@ RECURSIVE Subst(_, _, _)
 Subst(t, x, s) ==
     LET op == t[1] IN
     CASE op = "q" -> t
+      [] op = "e10" -> t
       [] op = "v" -> IF t[2] = x THEN s ELSE t
       [] op \in {"add", "sub", "mul", "div"} -> <<op, Subst(t[2], x, s), Subst(t[3], x, s)>>
       [] op = "pow" -> <<op, Subst(t[2], x, s), t[3]>>
